@@ -319,6 +319,23 @@ func isDynCallOfField(cc *ssa.CallCommon, pkg, typ, field string) bool {
 
 // isWG reports a call of sync.WaitGroup method `m` on field pkg.typ.field.
 func isWG(cc *ssa.CallCommon, method, pkg, typ, field string) bool {
+	if isWGDirect(cc, method, pkg, typ, field) {
+		// inside a thin wrapper (`func (s *Server) reserveConn() { s.connWg.Add(1); ... }`) the call is not a site of
+		// its own: the wrapper's call sites are
+		if fa, ok := cc.Args[0].(*ssa.FieldAddr); ok && wgWrapper(fa.Parent(), method, pkg, typ, field) {
+			return false
+		}
+		return true
+	}
+	if method == "Add" || method == "Done" {
+		if g := cc.StaticCallee(); g != nil && an.InModule(g) && len(cc.Args) == 1 && wgWrapper(g, method, pkg, typ, field) {
+			return true
+		}
+	}
+	return false
+}
+
+func isWGDirect(cc *ssa.CallCommon, method, pkg, typ, field string) bool {
 	f := cc.StaticCallee()
 	if f == nil || an.FuncPkgPath(f) != "sync" || f.Name() != method || f.Signature.Recv() == nil ||
 		!an.TypeIs(f.Signature.Recv().Type(), "sync", "WaitGroup") || len(cc.Args) == 0 {
@@ -326,6 +343,67 @@ func isWG(cc *ssa.CallCommon, method, pkg, typ, field string) bool {
 	}
 	_, ok := fieldAddr(cc.Args[0], pkg, typ, field)
 	return ok
+}
+
+// wgAddIsOne: the Add site adds the constant 1 (a wrapper site does by construction).
+func wgAddIsOne(ci ssa.CallInstruction) bool {
+	if len(ci.Common().Args) < 2 {
+		return true // wrapper call: wgWrapper checked the constant
+	}
+	k, isK := an.IntConst(ci.Common().Args[1])
+	return isK && k == 1
+}
+
+var wgWrapperMemo = map[string]bool{}
+
+// wgWrapper: g is a method of pkg.typ without further parameters or results
+// that, on its only path, performs exactly one <field>.Add(1) / <field>.Done()
+// on its receiver and otherwise nothing but atomic counter updates and
+// logging: calling it is that WaitGroup operation.
+func wgWrapper(g *ssa.Function, method, pkg, typ, field string) bool {
+	if g == nil || len(g.Blocks) != 1 || len(g.Params) != 1 || g.Signature.Results().Len() != 0 || g.Signature.Recv() == nil {
+		return false
+	}
+	key := g.String() + "|" + method + "|" + typ + "." + field
+	if v, ok := wgWrapperMemo[key]; ok {
+		return v
+	}
+	n, ok := 0, true
+	for _, in := range g.Blocks[0].Instrs {
+		switch x := in.(type) {
+		case ssa.CallInstruction:
+			cc := x.Common()
+			if _, isCall := x.(*ssa.Call); !isCall {
+				ok = false
+				continue
+			}
+			if isWGDirect(cc, method, pkg, typ, field) {
+				base, _ := fieldAddr(cc.Args[0], pkg, typ, field)
+				if an.Strip(base) != ssa.Value(g.Params[0]) {
+					ok = false
+				}
+				if method == "Add" {
+					if k, isK := an.IntConst(cc.Args[1]); !isK || k != 1 {
+						ok = false
+					}
+				}
+				n++
+				continue
+			}
+			if f := cc.StaticCallee(); f != nil && an.FuncPkgPath(f) == "sync/atomic" {
+				continue
+			}
+			if cc.IsInvoke() && an.TypeIs(cc.Value.Type(), "github.com/hashicorp/go-hclog", "Logger") {
+				continue
+			}
+			ok = false
+		case *ssa.Store, *ssa.Send, *ssa.Select, *ssa.MapUpdate, *ssa.Panic:
+			ok = false
+		}
+	}
+	res := ok && n == 1
+	wgWrapperMemo[key] = res
+	return res
 }
 
 // isInvoke reports an interface method call name on interface type pkg.iface.
@@ -783,6 +861,11 @@ func classImpliesPred(cond ssa.Value, truth bool, pred func(ssa.Value) bool, dep
 		}
 		pt := hasFactD(ret.Block(), true, pred, depth+1)
 		pf := hasFactD(ret.Block(), false, pred, depth+1)
+		if pt && pf {
+			// several conditions satisfy pred (`case a(err), b(err): ...; case c(err): ...`): one of them holds here and
+			// the earlier ones do not - "a condition satisfying pred is true" is what holds
+			pf = false
+		}
 		if pt == pf {
 			return false, false
 		}
@@ -832,6 +915,87 @@ func ifsOn(fn *ssa.Function, pred func(ssa.Value) bool) []condIf {
 		} else if p, known := classImpliesPred(cond, false, pred, 0); known && p {
 			out = append(out, condIf{iff, !neg})
 		}
+	})
+	return out
+}
+
+// errNilIf is a branch of fn that decides whether errVal is nil: directly
+// (`if err != nil`), or through a classifier of the module applied to it
+// (`switch classifyReadErr(err) { case readOK: ...`) whose selected returns are
+// all under `err == nil` (and the others all under `err != nil`).
+type errNilIf struct {
+	If      *ssa.If
+	NilSucc *ssa.BasicBlock // taken when errVal is nil
+	ErrSucc *ssa.BasicBlock // taken when it is not
+}
+
+func errNilIfs(fn *ssa.Function, errVal ssa.Value) []errNilIf {
+	var out []errNilIf
+	an.Instrs(fn, func(in ssa.Instruction) {
+		iff, ok := in.(*ssa.If)
+		if !ok {
+			return
+		}
+		cond, neg := an.Not(iff.Cond)
+		if x, trueMeansNil, isNC := an.NilCheck(cond); isNC && an.StripX(x) == errVal {
+			nilIdx := 0
+			if trueMeansNil == neg {
+				nilIdx = 1
+			}
+			out = append(out, errNilIf{iff, iff.Block().Succs[nilIdx], iff.Block().Succs[1-nilIdx]})
+			return
+		}
+		call, _, _, isK := classifierCallLoose(cond)
+		if !isK {
+			return
+		}
+		K := an.StaticCallee(call.Common())
+		pi := -1
+		for i, a := range call.Common().Args {
+			if an.StripX(a) == errVal && i < len(K.Params) {
+				pi = i
+			}
+		}
+		if pi < 0 {
+			return
+		}
+		isNil := func(v ssa.Value) bool {
+			x, trueMeansNil, ok := an.NilCheck(v)
+			return ok && trueMeansNil && an.Strip(x) == ssa.Value(K.Params[pi])
+		}
+		isNonNil := func(v ssa.Value) bool {
+			x, trueMeansNil, ok := an.NilCheck(v)
+			return ok && !trueMeansNil && an.Strip(x) == ssa.Value(K.Params[pi])
+		}
+		// meaning(truth): +1 the classifier test having this value implies err == nil, -1 implies err != nil, 0 unknown
+		meaning := func(truth bool) int {
+			if p, known := classImpliesPred(cond, truth, isNil, 0); known {
+				if p {
+					return 1
+				}
+				return -1
+			}
+			if p, known := classImpliesPred(cond, truth, isNonNil, 0); known {
+				if p {
+					return -1
+				}
+				return 1
+			}
+			return 0
+		}
+		mt, mf := meaning(true), meaning(false)
+		if mt*mf != -1 {
+			return
+		}
+		condTrue := 0
+		if neg {
+			condTrue = 1
+		}
+		nilIdx := condTrue
+		if mt == -1 {
+			nilIdx = 1 - condTrue
+		}
+		out = append(out, errNilIf{iff, iff.Block().Succs[nilIdx], iff.Block().Succs[1-nilIdx]})
 	})
 	return out
 }
